@@ -134,12 +134,63 @@ fn classes_of(st: &mut Stats, seq: &[u8], w: usize, m: usize, exp: &[(u64, usize
     }
 }
 
+/// iterator protocol beyond next(): fold-based adaptors after some next() calls, count, last, exhaustion
+pub fn check_protocol(seq: &[u8], w: usize, m: usize, with_kmers: bool) -> Option<(String, String, Json)> {
+    let exp = model::minimiser_runs(seq, w, m);
+    let r = guarded(|| {
+        let fresh = || -> Box<dyn Iterator<Item = (u64, usize, usize)> + '_> {
+            if with_kmers {
+                Box::new(KmerMinimiserGenerator::new(seq, w, m).map(|x| (x.0, x.1, x.2)))
+            } else {
+                Box::new(MinimiserGenerator::new(seq, w, m))
+            }
+        };
+        for j in [1usize, exp.len() / 2, exp.len()] {
+            if j > exp.len() {
+                continue;
+            }
+            let mut it = fresh();
+            for _ in 0..j {
+                it.next();
+            }
+            let rest: Vec<(u64, usize, usize)> = it.fold(Vec::new(), |mut v, x| {
+                v.push(x);
+                v
+            });
+            if rest != exp[j..] {
+                return Some(("minimiser.protocol.fold_after_next".to_string(), format!("after {} next() calls, fold() delivers {} runs, {} remain", j, rest.len(), exp.len() - j)));
+            }
+        }
+        if fresh().count() != exp.len() {
+            return Some(("minimiser.protocol.count".to_string(), "count() differs from the number of runs".to_string()));
+        }
+        if fresh().last() != exp.last().copied() {
+            return Some(("minimiser.protocol.last".to_string(), "last() differs from the last run".to_string()));
+        }
+        let mut it = fresh();
+        while it.next().is_some() {}
+        if it.next().is_some() || it.next().is_some() {
+            return Some(("minimiser.protocol.after_end".to_string(), "an exhausted iterator yielded another run".to_string()));
+        }
+        None
+    });
+    match r {
+        Ok(v) => v.map(|(a, b)| (a, b, Json::Null)),
+        Err(p) => Some((panic_sig(&p), format!("iterator panicked under an adaptor: {}", p), Json::Null)),
+    }
+}
+
 fn judge(st: &mut Stats, seq: &[u8], w: usize, m: usize, with_kmers: bool) {
     let nontrivial = seq.len() >= w;
     st.case(nontrivial, hash_bytes(seq) ^ mix(w as u64 * 64 + m as u64));
     let r = if with_kmers { check_kmers(seq, w, m) } else { check_plain(seq, w, m) };
     if let Some((sig, msg, detail)) = r {
         st.violate(&sig, msg, case_json(seq, w, m).set("detail", detail));
+    } else if seq.len() < 2000 && st.evaluations % 8 == 0 {
+        if let Some((sig, msg, detail)) = check_protocol(seq, w, m, with_kmers) {
+            st.violate(&sig, msg, case_json(seq, w, m).set("detail", detail));
+        }
+        st.class("protocol-checked");
     }
 }
 
@@ -250,4 +301,38 @@ pub fn replay(case: &Json, st: &mut Stats, with_kmers: bool) {
     let w = case.get("w").and_then(|k| k.as_i()).unwrap_or(1) as usize;
     let m = case.get("m").and_then(|k| k.as_i()).unwrap_or(1) as usize;
     judge(st, &seq, w, m, with_kmers);
+}
+
+/// very long runs of ambiguous bytes / long clean sequences for both minimiser iterators
+pub fn longruns(ctx: &Ctx) -> Stats {
+    let mut st = Stats::new();
+    let runs: &[usize] = if ctx.tier == Tier::Quick { &[12_000, 400_000] } else { &[12_000, 70_000, 400_000, 2_000_000] };
+    let mut i = 0u64;
+    for &run in runs {
+        for &(w, m) in &[(1usize, 1usize), (9, 4), (31, 7), (40, 31)] {
+            i += 1;
+            let mut rng = Rng::keyed(ctx.seed, "c09.longruns", i);
+            let mut seq: Vec<u8> = (0..w + 5).map(|_| *rng.pick(b"ACGT")).collect();
+            seq.extend(std::iter::repeat(b'N').take(run));
+            seq.extend((0..w + 9).map(|_| *rng.pick(b"ACGT")));
+            seq.push(b'N');
+            seq.extend((0..(run / 2).min(150_000)).map(|_| *rng.pick(b"ACGT")));
+            let case = Json::obj().set("layout", Json::s(format!("{} clean + {} x N + {} clean + N + {} two-letter", w + 5, run, w + 9, (run / 2).min(150_000)))).set("w", Json::u(w)).set("m", Json::u(m));
+            note_current_case(ctx, &case);
+            st.case(true, mix(i) ^ mix(run as u64));
+            st.class(&format!("ambiguous-run={}", run));
+            if let Some((sig, msg, _)) = check_plain(&seq, w, m) {
+                st.violate(&format!("{}:longrun", sig), msg, case.clone());
+            }
+            if w <= 31 {
+                if let Some((sig, msg, _)) = check_kmers(&seq, w, m) {
+                    st.violate(&format!("{}:longrun", sig), msg, case.clone());
+                }
+            }
+            if i % 3 == 1 {
+                st.sample(case);
+            }
+        }
+    }
+    st
 }
